@@ -147,7 +147,12 @@ FarSeq == [k_ \in 1..Len(FarPairs) |->
               phi |-> AngleQ(FarPhiPi[q_[3]], FarOff[q_[4]]), r |-> RadiusCycle[(k_ % 5) + 1]]]
 \* sin(k pi + off) has the sign (-1)^k sign(sin off); off in (0, pi) here, so "far" contains both
 \* reflected and unreflected polar angles
-ExtraAngles == ThresholdSeq \o FarSeq
+\* the poles themselves, as other multiples of pi than 0 and pi (the documented zero of the polar derivative is a
+\* statement about the pole, not about the number 0.0)
+PolePi == <<-1, 2, 3, -2>>
+PoleSeq == [k_ \in 1..Len(PolePi) |-> [class |-> "pole", theta |-> ThresholdTheta[(k_ % 3) + 1],
+                                       phi |-> AngleQ(PolePi[k_], QZero), r |-> RadiusCycle[(k_ % 5) + 1]]]
+ExtraAngles == ThresholdSeq \o FarSeq \o PoleSeq
 \* every threshold angle is outside the pole cut 1e-10 and inside 1e-2 of a pole
 ThresholdOutsideCut == \A a_ \in ThresholdPhi : QLt(Q(1, 2000000000), QAbs(a_.off)) /\ QLt(QAbs(a_.off), Q(1, 100))
 
